@@ -33,7 +33,7 @@ var pureLibs = map[string]bool{
 	"strings.ContainsRune": true, "textproto.CanonicalMIMEHeaderKey": true, "(http.Header).Get": true,
 	"(error).Error": true, "ssa:deferstack": true, "ssa:wrapnilchk": true,
 	"base64.(*Encoding).EncodeToString": true, "(*base64.Encoding).EncodeToString": true,
-	"(*base64.Encoding).DecodeString": true, "metadata.Join": true, "(metadata.MD).Copy": true,
+	"metadata.Join": true, "(metadata.MD).Copy": true,
 	"metadata.NewIncomingContext": true, "context.WithTimeout": true, "context.WithCancel": true,
 	"(*sync.WaitGroup).Add": true, "(*sync.WaitGroup).Done": true, "(*sync.WaitGroup).Wait": true, "(*sync.Pool).Put": true,
 	"(http.Flusher).Flush": true,
@@ -694,6 +694,13 @@ func (e *Engine) ghostCall(env *Env, x ECall) (Val, bool) {
 	case "fdMsg":
 		e.needProto = true
 		return VInt{app("fdMsg", env.eval(x.Args[0]).(VIface).Pay)}, true
+	case "B64OK": // B64OK("std"|"raw", v): v is valid base64 text of that encoding
+		if lit, ok := x.Args[0].(EStr); ok && (lit.V == "std" || lit.V == "raw") {
+			if v, ok := env.eval(x.Args[1]).(VStr); ok {
+				e.needB64 = true
+				return VBool{app("b64ok_"+lit.V, v.Arr, v.Off, v.Len)}, true
+			}
+		}
 	case "fdOwner": // the FieldDescriptors collection (its identity) a field descriptor was looked up in
 		e.needProto = true
 		return VInt{app("fdOwner", env.eval(x.Args[0]).(VIface).Pay)}, true
